@@ -273,10 +273,17 @@ func (s *Error) UnmarshalXML(d *xml.Decoder, start xml.StartElement) error {
 				Value: t.Text,
 			})
 		case start.Name.Space == NSError:
-			s.Err = start.Name.Local
-			if err = d.Skip(); err != nil {
+			// Any condition may carry character data (TokenReader writes Content
+			// for every condition).
+			t := struct {
+				Text string `xml:",chardata"`
+			}{}
+			err = d.DecodeElement(&t, &start)
+			if err != nil {
 				return err
 			}
+			s.Err = start.Name.Local
+			s.Content = t.Text
 		default:
 			// An application specific condition (or anything else we do not know):
 			// step over it so that its end tag is not taken for ours.
